@@ -113,6 +113,10 @@ def check_plain(case):
     from wannierberri.data_K.data_K_R import Data_K_R
     from wannierberri.system.interpolate import SystemInterpolator
     m0, m1 = wbsys.make_model(_params(case, "s0")), wbsys.make_model(_params(case, "s1"))
+    # the order in which a system stores its R-vectors is arbitrary (it comes out of a set): give the second system
+    # its own order, so that equal R *sets* do not imply equal R *lists*
+    _perm = np.random.default_rng(int(_params(case, "s1")["rs"]) % (2 ** 32) + 7).permutation(len(m1.iRvec))
+    m1 = wbsys.Model(m1.lattice, m1.wcc_red, m1.iRvec[_perm], {k: v[_perm] for k, v in m1.mats.items()})
     s0, s1 = wbsys.to_system(m0), wbsys.to_system(m1)
     if case["precache"]:  # every constructor of the package evaluates this cached property
         _ = s0.wannier_centers_red, s1.wannier_centers_red
